@@ -161,7 +161,7 @@ def _rejoin(env, cfg):
             # the junction knot was judged removable within the library's 1e-9 tolerance (m0 - mj times)
             k = m0 - mj
             env.assume(k <= 2)  # deeper tolerance-level removals: outside the claim (see META)
-            bound = Fraction(2, 10 ** 9) * max(1, vals[-1] - vals[0]) * k * k
+            bound = 2 * Fraction(1e-9) * max(1, vals[-1] - vals[0]) * k * k
             for c, e in enumerate(kmode.l2_sq(kv, P, kvJ, list(J.ctrlpoints))):
                 env.holds(f"rejoin at {cut} with {k} removal(s): integral of squared deviation within tolerance (coord {c})", e <= bound)
             env.note(f"rejoin at {cut}: junction multiplicity {mj} < original {m0}")
@@ -194,7 +194,7 @@ def _join(env, cfg):
     env.holds("junction multiplicity within 0..max degree+1", 0 <= mj <= r + 1)
     QJ = list(J.ctrlpoints)
     L = vb[-1] - va[0]
-    bound = Fraction(2, 10 ** 9) * max(1, L)
+    bound = 2 * Fraction(1e-9) * max(1, L)
     if removed == 0:
         kmode.same_function(env, "A|B on A's interval", kva, P, None, kvJ, QJ, None, lo=va[0], hi=va[-1])
         kmode.same_function(env, "A|B on B's interval", kvb, Q, None, kvJ, QJ, None, lo=vb[0], hi=vb[-1])
